@@ -159,7 +159,13 @@ pub fn run(u: &mut Universe, b: &Batch, st: &mut Stats) {
                 }
                 let wins = lib_windows(&out0, 0);
                 st.count("enum.windows_total", wins.len() as u64);
-                for &wd in &wins {
+                // quick tier, emulated backend (~100 windows per lookup): every
+                // window is still visited, by every second mutation of the catalogue
+                let stride = if b.tier == "thorough" || !b.uni.no_openat2 { 1 } else { 2 };
+                for (wi, &wd) in wins.iter().enumerate() {
+                    if (wi + mi) % stride != 0 {
+                        continue;
+                    }
                     let case = enum_case(&b.uni, li, vec![Dec { step: wd, attack: muts[mi].0.clone(), ..Default::default() }]);
                     let mut atk = Attacker::new(&w);
                     let mut out = run_case(u, &case, &mut atk, false);
